@@ -110,6 +110,32 @@ pub fn c11(tier: &str) -> i32 {
             }
         }
     }
+    // (2b) large memo (the 1-byte BINGET/BINPUT forms run out above 256 entries): every opcode after a 257-entry memo
+    for p in 0..=5u8 {
+        if quick && !(p == 1 || p == 4) {
+            continue;
+        }
+        let put: Vec<u8> = match p {
+            0 => vec![b'p'],
+            1..=3 => vec![b'q', b'r', b'p'],
+            _ => vec![0x94],
+        };
+        let mut plan = vec![vec![b'N']];
+        plan.extend(std::iter::repeat(put).take(257));
+        let cfg = Cfg::new(p).flags(true, true);
+        let opts = Opts { max_depth: 2, max_memo: 258, dev_budget: 1, ref_in_key: false, frame: FrameSel::Off, max_path: if quick { 1 } else { 2 }, ..Opts::default() };
+        let ex = Explorer { base_cfg: cfg, opts, monitor: &guard, xval_full: Default::default(), choice_discovery: Default::default() };
+        match crate::explore::scenario(&ex, false, &plan) {
+            Ok(r) => {
+                let out = ex.explore(Some(vec![r]));
+                rep.add_stats(&format!("P{p}/none/scenario-memo257"), &out.stats);
+                for fd in &out.found {
+                    rep.finding(fd);
+                }
+            }
+            Err(e) => rep.machinery.push(format!("P{p} memo scenario: {e}")),
+        }
+    }
     // (3) seed sweep with default and extreme settings
     let seeds: u64 = if quick { 100 } else { 3000 };
     let sw: Vec<(Cfg, u64)> = (0..=5u8)
